@@ -5,9 +5,11 @@ SW == [op |-> "SW", g |-> 0]
 W1 == [op |-> "W", g |-> 1]
 W2 == [op |-> "W", g |-> 2]
 DH == [op |-> "DH", g |-> 0]
-Alphabet == {Y, SW, W1, W2, DH}
+YA0 == [op |-> "YA", g |-> 0]
+YA2 == [op |-> "YA", g |-> 2]
+Alphabet == {Y, YA0, YA2, SW, W1, W2, DH}
 \* no yield after the handle has been dropped (the handle is moved); the handle is dropped at most once
-WellFormed(p) == \A i, j \in 1..Len(p) : (p[i].op = "DH" /\ j > i) => p[j].op \notin {"Y", "DH"}
+WellFormed(p) == \A i, j \in 1..Len(p) : (p[i].op = "DH" /\ j > i) => p[j].op \notin {"Y", "YA", "DH"}
 ProgsUpTo(n) == {p \in UNION {[1..k -> Alphabet] : k \in 0..n} : WellFormed(p)}
 MCProgs2 == ProgsUpTo(2)
 MCProgs3 == ProgsUpTo(3)
